@@ -352,6 +352,10 @@ impl FieldMap {
             )));
         }
         let mut ki: HashMap<config::FieldKey, Field> = HashMap::with_capacity(config_mapping.len());
+        // visits the fields in a fixed order, so that the error reported for a config
+        // with several invalid fields does not depend on the hash order.
+        let mut config_mapping: Vec<_> = config_mapping.iter().collect();
+        config_mapping.sort_unstable_by_key(|(k, _)| **k);
         for (&k, pos) in config_mapping {
             let field = match &pos {
                 config::FieldPos::Index(i) => Ok(Field::ColumnIndex(i.as_zero_based())),
